@@ -325,10 +325,13 @@ def run(ctx):
         if oc != 'ok':
           ctx.fail_input('array_dtype', '%s: %s array given as %s raises %s' % (name, key, vname, oc),
                          dict(estimator=name, option=key, dtype=vname, array=base.tolist()))
-        elif vname == 'float32':
-          # single precision is kept (the iterations then run in it): only "fit returns a finite model of the right shape"
+        elif vname == 'float32' or (vname == 'fortran' and name not in ('ITML', 'SDML')):
+          # single precision is kept (the iterations then run in it); another memory layout changes the summation order of
+          # BLAS calls by a few ulps, which solvers with discrete decisions (MMC's accept / reject and projection count, LSML's
+          # step choice, LMNN's active sets, L-BFGS line searches) may amplify: only "fit returns a finite model of the right shape"
+          # (that the array is used as given, as a copy, is checked on the initialiser itself above, in every layout)
           if r.components_.shape != ref.shape or r.components_.dtype.kind != 'f' or not np.isfinite(r.components_).all():
-            ctx.fail_input('array_dtype', '%s: %s array given as float32: components_ is not a finite float array of the right shape' % (name, key),
+            ctx.fail_input('array_dtype', '%s: %s array given as %s: components_ is not a finite float array of the right shape' % (name, key, vname),
                            dict(estimator=name, option=key, dtype=vname, array=base.tolist()))
         elif r.components_.shape != ref.shape or r.components_.dtype.kind != 'f' or \
             not np.allclose(r.components_, ref, rtol=1e-5, atol=1e-7 * (1 + np.abs(ref).max())):
@@ -348,8 +351,13 @@ def run(ctx):
       Mf = Bf.dot(Bf.T)
       Mf = ((Mf + Mf.T) / 2).astype(np.float32)
       ev = np.linalg.eigvalsh(Mf.astype(float))
-      if ev[d - rank] < 1e-3 * ev[-1] or np.abs(ev[:d - rank]).max() > 1e-5 * ev[-1]:
-        continue                                      # rank not clear-cut in single precision
+      import scipy.linalg as _sl
+      ev32 = np.asarray(_sl.eigh(Mf, check_finite=False)[0], dtype=float)      # what the code sees: SciPy's eigh in single precision
+      tol32 = float(np.abs(ev32).max() * d * np.finfo(np.float32).eps)
+      noise = max(np.abs(ev32[:d - rank]).max(), np.abs(np.linalg.eigvalsh(Mf).astype(float)[:d - rank]).max())    # (NumPy's eigh is used by the converter)
+      if ev[d - rank] < 1e-3 * ev[-1] or noise > 0.1 * tol32:
+        continue                                      # rank not clear-cut at the code's own tolerance (rounding noise of the null
+                                                      # eigenvalues within a factor 10 of the tolerance: either verdict is legitimate)
       ctx.count('float32_psd', 1)
       oc, L = outcome(lambda: components_from_metric(Mf.copy()))
       if oc != 'ok' or not np.allclose(np.asarray(L, dtype=float).T.dot(L), Mf, rtol=0, atol=1e-4 * ev[-1]):
